@@ -59,6 +59,8 @@ func init() {
 			{ID: "C03-R27", Title: "deferred closures that re-enter the function that deferred them count their nesting", Floor: 1, Run: deferredReentryIsBounded},
 			{ID: "C03-R28", Title: "goroutines do not dereference fields that are set to nil elsewhere", Floor: 2, Run: goroutinesDoNotUseWhatIsClearedElsewhere},
 			{ID: "C03-R29", Title: "recover handlers of goroutines do not panic themselves", Floor: 1, Run: recoverHandlersDoNotPanic},
+			{ID: "C03-R30", Title: "nil beliefs hold across functions on the unprotected surface", Floor: 3, Run: nilBeliefsHoldAcrossFunctions},
+			{ID: "C03-R31", Title: "cycles are looked for at every level past the threshold", Floor: 2, Run: cyclesAreLookedForAtEveryLevelPastTheThreshold},
 		},
 	})
 }
